@@ -93,6 +93,17 @@ add("C13", "xenum+envx", "exploration",
     "Valid public keys only (an off-curve key panics inside crypto/elliptic by design); values outside the boundary sets are not covered.",
     "DESIGN.md 4 C13")
 
+add("C05", "xenum", "exploration",
+    "bounded exhaustive enumeration of batch compositions (every sequence of length 1..3/4 over an 8-letter request alphabet x 7 issuer configurations) through the real client, wire codecs, EvaluateBatch, response decoder and per-request finalization, against a per-request reference model",
+    "The decoded response has exactly one entry per request in order; entry i is present exactly when a configured issuer of its type and truncated key id evaluates request i alone; every present entry finalizes under its own request state to a token that verifies independently; type-2 entries are byte-identical to the stand-alone evaluation, so failing neighbours change nothing.",
+    "Configurations where two issuers of one type share a truncated key id are excluded; the unknown-key-id letter uses the first byte of issuer A's id where that is free.",
+    "DESIGN.md 4 C05")
+add("C07", "xenum", "exploration",
+    "bounded exhaustive enumeration of encoded requests to the real rate-limited issuer: every single-bit change, every truncation and 5 extensions of honest and of hand-crafted consistent requests, plus hand-crafted requests (go-hpke + crypto/ecdsa, independent of the client) for each rejecting class",
+    "Honest and consistent requests are accepted and finalize to valid tokens; each of ~4160 single-bit variants, 520 truncations, extensions, unregistered/similar origins, encryption to another name key (with and without the victim's id), associated data bound to another request key, signatures by another key / over other contents / missing / short are answered with an error and nil outputs.",
+    "Expected verdicts of crafted requests follow from their construction; origin-name neighbours are a small list here (C20 enumerates them).",
+    "DESIGN.md 4 C07")
+
 NOT_APPLICABLE = {}
 
 ALL = ["C%02d" % i for i in range(1, 21)]
